@@ -332,6 +332,12 @@ def val_rows(s):
 
 def _fp_objs(spec):
     out = []
+    if 'repeat' in spec:
+        # a LARGE batch described compactly: the base fingerprints cycled `repeat` times, one faulty member at `fault_pos`
+        base = spec['fps']
+        for i in range(spec['repeat']):
+            out.append(dbgen.fp_from_json(spec['fault_fp'] if i == spec['fault_pos'] else base[i % len(base)])['fp'])
+        return out
     for j in spec['fps']:
         if j is None:
             out.append(None)
@@ -533,6 +539,46 @@ def direct_add_faults(env, t):
         make_fault(env, batch, pos, kind)
         env.bump('call_forms', 'add:' + cont)
         if not direct(env, 'add:%s:container-%s' % (kind, cont), pos, {'call': 'add', 'h': t, 'fps': [_fp_json(f) for f in batch], 'container': cont}):
+            return
+
+
+def direct_large_batches(env, t):
+    """Batches of thousands of fingerprints with ONE faulty member late in the batch (an implementation that validates or commits a
+    long batch slice by slice, or stops validating after a while, refuses too late).  Outside the model's evaluation budget, so
+    implementation-only: must raise, and the target (a deep copy) and every live database must be unchanged.  Per run (quick): four
+    batches (two sizes x two positions: the last member and a late one) whose fault is in the PROPERTIES of a late member (missing column / sequence value; needs a target with property
+    columns) and four whose fault is its length or level; sizes 1100 / 4200 / 9000 (thorough: also 20000 / 70000)."""
+    h, rng = env.h, env.rng
+    d = h.pool[t]
+    cap = 4 if env.ctx.tier == 'quick' else 24
+    if len(d.props) > 0 and env.dist.get('large_batches_props', 0) < cap:
+        group, kinds = 'large_batches_props', ['missing_prop', 'prop-sequence-value']
+    elif env.dist.get('large_batches_shape', 0) < cap:
+        group, kinds = 'large_batches_shape', ['bits-near', 'level-near']
+    else:
+        return
+    sizes = rng.sample([1100, 4200, 9000] + ([20000, 70000] if env.ctx.tier != 'quick' else []), 2)
+    if max(sizes) < 4200:
+        sizes[0] = rng.choice([4200, 9000])          # every call has one batch beyond a few thousand
+    base = h.batch(t, 6)
+    for n, pos in [(n, q) for n in sizes for q in (n - 1, rng.randrange(2 * n // 3, n - 1))]:      # the last member and a late one, for both sizes
+        kind = rng.choice(kinds)
+        b2 = list(base)
+        if kind == 'prop-sequence-value':
+            fj = _fp_json(b2[0])
+            cols = [j for j, (k, _) in enumerate(fj['props']) if k != 'extra']
+            if not cols:
+                continue
+            j = rng.choice(cols)
+            fj['props'][j] = [fj['props'][j][0], list(rng.choice(SEQ_VALUES))]
+        else:
+            if not make_fault(env, b2, 0, kind):
+                continue
+            fj = _fp_json(b2[0])
+        env.dist[group] = env.dist.get(group, 0) + 1
+        env.bump('call_forms', 'add:large-batch-%d' % n)
+        if not direct(env, 'add:%s:large-batch' % kind, pos, {'call': 'add', 'h': t, 'fps': [_fp_json(f) for f in base], 'repeat': n, 'fault_pos': pos,
+                                                              'fault_fp': fj, 'container': 'list'}, scratch=True, finding='add:large-batch:' + kind):
             return
 
 
